@@ -200,13 +200,28 @@ def install(eng, c, runner):
     def f_ghost_get(e, args, kw):
         return e.ghost.get(conc_str(e.refine(args[0]).t), args[1] if len(args) > 1 else S_NONE)
 
+    def f_elems_are(e, args, kw):
+        """elems_are(lst, "tuple-of-3-int"): every element read from this list object satisfies the type (an assumed
+        representation invariant of the list, instantiated at each read; natively it is checked on the whole list)"""
+        lst = e.refine(args[0])
+        ty = conc_str(e.refine(args[1]).t)
+        if lst.kind != "ref":
+            raise Unsupported("elems_are of a non-list")
+        et = getattr(e.p, "elem_types", None)
+        if et is None:
+            et = e.p.elem_types = {}
+        et[lst.ref.get_id()] = ty
+        e.keepalive.append(lst.ref)
+        e.p.notes.append(f"assumed element type {ty}")
+        return s_bool(True)
+
     def f_is_js_value(e, args, kw):
         return s_bool(simp(M.is_js_value(e.box(args[0]))))
 
     ex.update(assume=f_assume, check=f_check, cover=f_cover, outcome=f_outcome, es_outcome=f_es_outcome,
               same_value=f_same_value, same_ref=f_same_ref, same_elements=f_same_elements, same_outcome=f_same_outcome, heap_snapshot=f_heap_snapshot, loop_entry=f_loop_entry,
               heap_unchanged=f_heap_unchanged, dict_after_store=f_dict_after_store, dict_after_remove=f_dict_after_remove, exc_in=f_exc_in, is_number=f_is_number,
-              fresh=f_fresh, ghost_set=f_ghost_set, ghost_get=f_ghost_get, is_js_value=f_is_js_value)
+              fresh=f_fresh, ghost_set=f_ghost_set, ghost_get=f_ghost_get, is_js_value=f_is_js_value, elems_are=f_elems_are)
     for k, v in list(ex.items()):
         ex[k] = s_py(v, "func")
     # harness types usable as values (fresh(JSVal))
